@@ -254,6 +254,8 @@ def selfscan(ctx, sfw, root, t, files, oracle_all):
     bydir = {}
     for i, rel in enumerate(files):
         rc, out, err = run(sfw, ["index", "--name", "F%d" % i, "--db", db, rel], root)
+        if rc != 0 and not oracle_all[os.path.join(root, rel)]["funcs"]:
+            continue        # a file that declares no function: nothing of it has to be found again
         if rc != 0:
             raise vlib.Inconclusive("sfw index %s failed: %s" % (rel, err[-300:]))
         bydir.setdefault(os.path.dirname(rel), []).append(i)
